@@ -113,6 +113,7 @@ type AEvent struct {
 	Site   *ssa.Call
 	Conds  []string             // branch conditions assumed up to the call
 	Facts  map[string][2]uint64 // value ranges of sources established by those branches
+	SFacts map[string][2]int64  // the same for signed sources
 	Index  int                  // position of this event in the trace of its path
 	Stop   bool                 // set by OnCall: end this path here (the outcome is marked Stopped)
 	Ret    AVal                 // what the call was replaced by
@@ -635,6 +636,7 @@ type astate struct {
 	steps  int
 	serial int
 	facts  map[string][2]uint64
+	sfacts map[string][2]int64 // ranges of signed sources
 	// a sub-run of if-conversion ends when the frame at depth stopDepth reaches stopAt
 	stopAt    *ssa.BasicBlock
 	stopDepth int
@@ -644,9 +646,12 @@ type astate struct {
 }
 
 func (s *astate) clone() *astate {
-	n := &astate{mem: s.mem.clone(), steps: s.steps, serial: s.serial, facts: map[string][2]uint64{}, stopAt: s.stopAt, stopDepth: s.stopDepth, stopRet: s.stopRet, nils: s.nils}
+	n := &astate{mem: s.mem.clone(), steps: s.steps, serial: s.serial, facts: map[string][2]uint64{}, sfacts: map[string][2]int64{}, stopAt: s.stopAt, stopDepth: s.stopDepth, stopRet: s.stopRet, nils: s.nils}
 	for k, v := range s.facts {
 		n.facts[k] = v
+	}
+	for k, v := range s.sfacts {
+		n.sfacts[k] = v
 	}
 	n.conds = append([]string(nil), s.conds...)
 	n.trace = append([]AEvent(nil), s.trace...)
@@ -670,6 +675,7 @@ type AOutcome struct {
 	Panicked bool
 	Stopped  bool
 	Facts    map[string][2]uint64
+	SFacts   map[string][2]int64 // ranges of signed sources
 	Nils     map[string]bool // named values found nil (true) / non-nil (false) by the branches of this path
 }
 
@@ -821,7 +827,7 @@ func (ex *Exec) Run(fn *ssa.Function, args []AVal, mem *AMem) ([]AOutcome, error
 	} else {
 		mem = mem.clone()
 	}
-	st := &astate{mem: mem, facts: map[string][2]uint64{}}
+	st := &astate{mem: mem, facts: map[string][2]uint64{}, sfacts: map[string][2]int64{}}
 	fr := &aframe{fn: fn, env: map[ssa.Value]AVal{}, block: fn.Blocks[0]}
 	for i, p := range fn.Params {
 		if i < len(args) {
@@ -895,7 +901,7 @@ func (ex *Exec) run(s *astate) ([]*astate, *AOutcome, error) {
 			fr.pred, fr.block, fr.pc = fr.block, fr.block.Succs[0], 0
 			continue
 		case *ssa.Panic:
-			return nil, &AOutcome{Conds: s.conds, Mem: s.mem, Trace: s.trace, Panicked: true, Facts: s.facts, Nils: s.nils}, nil
+			return nil, &AOutcome{Conds: s.conds, Mem: s.mem, Trace: s.trace, Panicked: true, Facts: s.facts, SFacts: s.sfacts, Nils: s.nils}, nil
 		case *ssa.Return:
 			var rets []AVal
 			if s.retVals != nil {
@@ -913,7 +919,7 @@ func (ex *Exec) run(s *astate) ([]*astate, *AOutcome, error) {
 				}
 			}
 			if len(s.frames) == 1 {
-				return nil, &AOutcome{Conds: s.conds, Ret: rets, Mem: s.mem, Trace: s.trace, Facts: s.facts, Nils: s.nils}, nil
+				return nil, &AOutcome{Conds: s.conds, Ret: rets, Mem: s.mem, Trace: s.trace, Facts: s.facts, SFacts: s.sfacts, Nils: s.nils}, nil
 			}
 			s.frames = s.frames[:len(s.frames)-1]
 			caller := s.frames[len(s.frames)-1]
@@ -930,12 +936,17 @@ func (ex *Exec) run(s *astate) ([]*astate, *AOutcome, error) {
 			caller.pc++
 			continue
 		case *ssa.Call:
+			if s.stopAt == nil && !s.stopRet {
+				if fs := ex.forkIntrinsic(s, fr, x); fs != nil {
+					return fs, nil, nil
+				}
+			}
 			entered, err := ex.call(s, fr, x)
 			if err != nil {
 				return nil, nil, err
 			}
 			if n := len(s.trace); n > 0 && s.trace[n-1].Stop && s.trace[n-1].Site == x {
-				return nil, &AOutcome{Conds: s.conds, Mem: s.mem, Trace: s.trace, Stopped: true, Facts: s.facts, Nils: s.nils}, nil
+				return nil, &AOutcome{Conds: s.conds, Mem: s.mem, Trace: s.trace, Stopped: true, Facts: s.facts, SFacts: s.sfacts, Nils: s.nils}, nil
 			}
 			if entered {
 				continue
@@ -1086,12 +1097,14 @@ func (ex *Exec) refine(t, f *astate, fr *aframe, cond ssa.Value) {
 			op = token.LEQ
 		}
 	}
-	if isSigned(bo.X.Type()) && signExt(k, len(l.Bits)) < 0 {
-		return
-	}
 	w := srcWidths[src]
 	if isSigned(bo.X.Type()) && w == len(l.Bits) {
-		return // a signed source may be negative: an unsigned range would be wrong
+		// a signed whole source: signed ranges
+		ex.refineSigned(t, f, bo.Op, l.Bits, r.Bits)
+		return
+	}
+	if isSigned(bo.X.Type()) && signExt(k, len(l.Bits)) < 0 {
+		return
 	}
 	full := uint64(1)<<uint(w) - 1
 	if w >= 64 {
@@ -1997,6 +2010,16 @@ func (ex *Exec) binop(s *astate, fr *aframe, x *ssa.BinOp) AVal {
 			}
 		}
 	case token.EQL, token.NEQ:
+		if lr, okL := s.rangeOf(l.Bits, signed); okL {
+			if rr, okR := s.rangeOf(r.Bits, signed); okR {
+				if lr.hi < rr.lo || rr.hi < lr.lo {
+					return boolVal(x.Op == token.NEQ)
+				}
+				if lr.lo == lr.hi && rr.lo == rr.hi && lr.lo == rr.lo {
+					return boolVal(x.Op == token.EQL)
+				}
+			}
+		}
 		same, differ := true, false
 		for i := 0; i < lw && i < len(r.Bits); i++ {
 			a, b := l.Bits[i], r.Bits[i]
@@ -2045,6 +2068,42 @@ func (ex *Exec) binop(s *astate, fr *aframe, x *ssa.BinOp) AVal {
 		}
 		return AVal{K: AInt, Bits: mixVec(1)}
 	case token.LSS, token.LEQ, token.GTR, token.GEQ:
+		if signed {
+			lr, okL := s.rangeOf(l.Bits, true)
+			rr, okR := s.rangeOf(r.Bits, true)
+			if okL && okR {
+				switch x.Op {
+				case token.LSS:
+					if lr.hi < rr.lo {
+						return boolVal(true)
+					}
+					if lr.lo >= rr.hi {
+						return boolVal(false)
+					}
+				case token.LEQ:
+					if lr.hi <= rr.lo {
+						return boolVal(true)
+					}
+					if lr.lo > rr.hi {
+						return boolVal(false)
+					}
+				case token.GTR:
+					if lr.lo > rr.hi {
+						return boolVal(true)
+					}
+					if lr.hi <= rr.lo {
+						return boolVal(false)
+					}
+				case token.GEQ:
+					if lr.lo >= rr.hi {
+						return boolVal(true)
+					}
+					if lr.hi < rr.lo {
+						return boolVal(false)
+					}
+				}
+			}
+		}
 		// unsigned (or provably non-negative) value with known zero high bits against a constant
 		if !signed || (l.Bits[lw-1].Kind == BZero && r.Bits[lw-1].Kind == BZero) {
 			maxOf := func(b BitVec) uint64 {
@@ -2066,14 +2125,20 @@ func (ex *Exec) binop(s *astate, fr *aframe, x *ssa.BinOp) AVal {
 				return u
 			}
 			lmin, lmax, rmin, rmax := minOf(l.Bits), maxOf(l.Bits), minOf(r.Bits), maxOf(r.Bits)
-			if src, ok := plainSource(l.Bits); ok {
-				if fct, ok := s.facts[src]; ok {
-					lmin, lmax = fct[0], fct[1]
+			if rg, ok := s.rangeOf(l.Bits, false); ok && rg.lo >= 0 {
+				if uint64(rg.lo) > lmin {
+					lmin = uint64(rg.lo)
+				}
+				if uint64(rg.hi) < lmax {
+					lmax = uint64(rg.hi)
 				}
 			}
-			if src, ok := plainSource(r.Bits); ok {
-				if fct, ok := s.facts[src]; ok {
-					rmin, rmax = fct[0], fct[1]
+			if rg, ok := s.rangeOf(r.Bits, false); ok && rg.lo >= 0 {
+				if uint64(rg.lo) > rmin {
+					rmin = uint64(rg.lo)
+				}
+				if uint64(rg.hi) < rmax {
+					rmax = uint64(rg.hi)
 				}
 			}
 			switch x.Op {
@@ -2192,6 +2257,7 @@ func opaqueOp(op token.Token, l, r BitVec, w int) AVal {
 	if len(name) > 600 || strings.ContainsAny(name, "^") {
 		return AVal{K: AInt, Bits: mixVec(w)}
 	}
+	opaqueDefs[name] = opaqueDef{op: op, l: append(BitVec(nil), l...), r: append(BitVec(nil), r...)}
 	return AVal{K: AInt, Bits: regSource(name, w)}
 }
 
@@ -2262,6 +2328,10 @@ func (ex *Exec) call(s *astate, fr *aframe, x *ssa.Call) (bool, error) {
 		ev := &AEvent{Callee: name, Fn: callee, Args: args, Mem: s.mem.clone(), Site: x, Conds: append([]string(nil), s.conds...), Facts: map[string][2]uint64{}, Index: len(s.trace)}
 		for k, v := range s.facts {
 			ev.Facts[k] = v
+		}
+		ev.SFacts = map[string][2]int64{}
+		for k, v := range s.sfacts {
+			ev.SFacts[k] = v
 		}
 		if ret, handled := ex.OnCall(ev, s.mem); handled {
 			ev.Ret = ret
